@@ -76,4 +76,9 @@ FINDINGS = [
               'loops over all of them (no element consumes input, nothing bounds the quantity, oer.py:541-549)',
          witness=dict(kind='decode_steps', spec=HDR + 'A ::= SEQUENCE OF NULL' + END, codec='oer', type='A',
                       data_hex='04ffffffff', zero_width=True)),
+    dict(key='parser-multiword-keyword-separator', props=['C14'],
+         text='the words of multi-word keywords (OCTET STRING, BIT STRING, OBJECT IDENTIFIER, WITH COMPONENTS, COMPONENTS OF, EXTENSIBILITY IMPLIED, ...) '
+              'must be separated by exactly one space: "A ::= OCTET  STRING", a newline, a tab or a comment between the words is rejected '
+              '(pyparsing Keyword literals containing a space, parser.py:870-928)',
+         witness=dict(kind='custom', name='multiword_keyword')),
 ]
